@@ -7,6 +7,7 @@ import (
 	"fmt"
 	"os"
 	"path/filepath"
+	"regexp"
 	"sort"
 	"strings"
 	"sync"
@@ -35,13 +36,13 @@ func main() {
 
 type checkOpts struct {
 	repo, specDir, evidenceDir, replayDir, dumpDir, known string
-	props                                                  []string
-	tier                                                   string
-	unit                                                   string
-	seed                                                   int
-	timeout                                                time.Duration
-	verbose                                                bool
-	jobs                                                   int
+	props                                                 []string
+	tier                                                  string
+	unit                                                  string
+	seed                                                  int
+	timeout                                               time.Duration
+	verbose                                               bool
+	jobs                                                  int
 }
 
 func cmdCheck(args []string) int {
@@ -574,7 +575,7 @@ func unreachableSites(m map[string]*retGroup) []string {
 
 type retGroup struct {
 	sat, unsat, unknown int
-	ob         *Obligation
+	ob                  *Obligation
 }
 
 func sanitizeFile(s string) string {
@@ -852,12 +853,12 @@ func (e *Engine) report(o *checkOpts, units []*Unit, start time.Time, loadSecs, 
 		sort.Strings(unmodelled)
 		discharged := nDis
 		ev := map[string]any{
-			"property_id": prop,
-			"tier":        o.tier,
-			"seed":        o.seed,
-			"level":       "proof",
-			"wall_s":      round3(time.Since(start).Seconds()),
-			"violations":  violations,
+			"property_id":                     prop,
+			"tier":                            o.tier,
+			"seed":                            o.seed,
+			"level":                           "proof",
+			"wall_s":                          round3(time.Since(start).Seconds()),
+			"violations":                      violations,
 			"return_sites_proved_unreachable": unreachableSites(siteCover),
 			"coverage": map[string]any{
 				"obligations":              nObl,
@@ -891,8 +892,8 @@ func (e *Engine) report(o *checkOpts, units []*Unit, start time.Time, loadSecs, 
 		fmt.Printf("property=%s units=%d obligations=%d discharged=%d violations=%d known=%d wall=%.1fs\n", prop, len(unitSet), nObl, discharged, violations, len(knownHit), time.Since(start).Seconds())
 		if o.verbose {
 			type slow struct {
-				n string
-				s float64
+				n  string
+				s  float64
 				st string
 			}
 			var sl []slow
@@ -964,6 +965,17 @@ func standingAssumptions() []string {
 	}
 }
 
+var witnessRe = regexp.MustCompile(`\(define-fun \|?(p\.[^ |!]+)![0-9]+\|? \(\) (Int|Bool|Real)\s+([^\n]+)\)`)
+
+// witnessOf extracts the values the counter-model gives to the unit's scalar parameters (named p.<param>!n).
+func witnessOf(model string) map[string]string {
+	out := map[string]string{}
+	for _, m := range witnessRe.FindAllStringSubmatch(model, -1) {
+		out[strings.TrimPrefix(m[1], "p.")] = strings.TrimSpace(m[3])
+	}
+	return out
+}
+
 func (e *Engine) writeReplay(o *checkOpts, prop, obligation, reason, detail string, ob *Obligation) string {
 	dir := filepath.Join(o.replayDir, prop)
 	os.MkdirAll(dir, 0o755)
@@ -971,6 +983,13 @@ func (e *Engine) writeReplay(o *checkOpts, prop, obligation, reason, detail stri
 	r := map[string]any{"property": prop, "obligation": obligation, "verdict": reason, "solver_output": truncate(detail, 20000)}
 	if ob != nil {
 		r["goal"] = ob.Goal
+		if reason == "refuted" {
+			// the solver's counter-model, as far as it speaks about the unit's own parameters (scalars only)
+			if w := witnessOf(detail); len(w) > 0 {
+				r["counterexample_parameters"] = w
+			}
+			r["replay_note"] = "the counter-model is a model of the verification condition (uninterpreted strings, ghost tables); it is not turned into an executable test automatically"
+		}
 		r["source_clause"] = ob.Src
 		r["path"] = ob.Trace
 		r["solver"] = ob.Result.Solver
